@@ -466,7 +466,7 @@ def run(ctx):
     if ctx.shard == 0:
         immutable_op_sweep(ctx)
     pairs(ctx)
-    n = ctx.scale(4000, 120000)
+    n = ctx.scale(12000, 200000)
     for i in range(n):
         rk = ctx.rng.choice(['str', 'str', 'bin', 'bytearray', 'memoryview', 'bitarray', 'array', 'BytesIO'])
         bits = rb(ctx.rng, ctx.rng.choice([8, 16, 24, 64]))
